@@ -219,8 +219,10 @@ class G:
         if places and r < 70:
             return self.place_expr(self.pick(places))
         if ty == INT:
-            if r >= 97:
-                v = self.d(st.sampled_from([46340, 65536, 100000, 1 << 20, 2147483647]))
+            if r >= 94:
+                # large literals: 32-bit edges and integers a 32-bit float cannot represent
+                v = self.d(st.sampled_from([46340, 65536, 100000, 1 << 20, 2147483647, 16777217, 33554433, 123456789,
+                                            16777216, 1000000007]))
                 return M.Lit(v, INT, str(v))
             return int_lit(self.draw)
         return float_lit(self.draw)
